@@ -54,8 +54,11 @@ type Cfg struct {
 	// QuietPeriod: forced snapshots are disabled (interval 0); "a very long time passes" is an environment answer (once):
 	// nothing may be uploaded because of it
 	QuietPeriod bool `json:"quiet_period"`
-	RetryCount  int  `json:"retry_count"` // storage_retry_count (default 3); with StoreFaults >= RetryCount a whole upload can fail
-	TwoRemotes  bool `json:"two_remotes"` // two remote instances with disjoint keys; both snapshots may wait in the receiver at once
+	// ListOutage: every List call fails with an ordinary storage error, also after cancellation (a backend that does
+	// not look at the context); the only thing explored is when the context is cancelled. Sync must return then.
+	ListOutage bool `json:"list_outage"`
+	RetryCount int  `json:"retry_count"` // storage_retry_count (default 3); with StoreFaults >= RetryCount a whole upload can fail
+	TwoRemotes bool `json:"two_remotes"` // two remote instances with disjoint keys; both snapshots may wait in the receiver at once
 }
 
 var LoopHooks = []string{"sync.loopTop", "sync.beforeLoad", "load.beforeTxn", "load.afterTxn", "sync.afterLoad", "sync.beforeInfo", "sync.beforeSend", "send.beforeTxn", "send.afterTxn", "send.beforeStore", "send.afterStore", "sync.afterSendCheck", "sync.afterStartupCapture"}
@@ -91,6 +94,7 @@ type World struct {
 	overdue           bool // the forced-snapshot interval elapses before the loop's next deadline check
 	forced            int
 	quietUsed         bool
+	outageSleeps      int
 	txnBeforeLoad     int64
 	appTxns           []int64 // ids of the application's committed transactions
 	lastUploadTxn     int64
@@ -700,7 +704,14 @@ func Run(cfg Cfg, ctx *explore.Ctx) Result {
 	for _, p := range LoopHooks {
 		s.ParkPoints[p] = true
 	}
+	if cfg.ListOutage {
+		w.B.IgnoreCancel = true
+	}
 	w.B.Hook = func(op, name string) error {
+		if cfg.ListOutage && op == "list" {
+			s.Park("st."+op, name, []string{"fail"})
+			return fmt.Errorf("injected storage outage: connection refused")
+		}
 		answers := []string{"ok"}
 		if (op == "store" && cfg.StoreFaults > 0) || (op == "load" && cfg.LoadFaults) || (op == "list" && cfg.ListFaults) {
 			answers = []string{"ok", "fail"}
@@ -1083,6 +1094,13 @@ func (w *World) policy(appPoints map[string]bool) sched.Policy {
 			}
 			return out
 		case strings.HasPrefix(loop.Point, "sleep."):
+			if cfg.ListOutage && !w.cancelled {
+				// the outage never ends: after a few retries the only thing left to happen is the shutdown
+				w.outageSleeps++
+				if w.outageSleeps > 3 {
+					return []sched.Choice{w.cancelChoice(s, loop.Point)}
+				}
+			}
 			out := one(loop, 0)
 			if cfg.Cancel && !w.cancelled {
 				out = append(out, w.cancelChoice(s, loop.Point))
